@@ -227,6 +227,9 @@ func (fr *Frame) loopEffects(pre *State, li *loopInfo) *loopEffects {
 				touchAlloc = true
 				markKinds(x.Type().Underlying().(*types.Slice).Elem(), true)
 			case *ssa.MakeInterface:
+				if ks := vc.p.lay.of(x.X.Type()).Kinds; len(ks) == 1 && ks[0] == KI {
+					continue
+				}
 				if _, isPtr := x.X.Type().Underlying().(*types.Pointer); !isPtr {
 					if _, isI := x.X.Type().Underlying().(*types.Interface); !isI {
 						touchAlloc = true
